@@ -55,7 +55,7 @@ QUEUE_KINDS = {'raise_conn': 'ConnectionResetError',
                'raise_pipe': 'BrokenPipeError', 'raise_eof': 'EOFError',
                'raise_os': 'OSError'}
 # input that cannot be searched: the fault is in the data, nothing is injected
-DATA_KINDS = ('bad_utf8', 'bad_gzip_crc', 'gzip_junk')
+DATA_KINDS = ('bad_utf8', 'bad_gzip_crc', 'gzip_junk', 'seq_midsection')
 CLASSES = {'FileSearchException': 'E_FSE', 'UnicodeDecodeError': 'E_UDE',
            'BrokenProcessPool': 'E_BPP'}
 OK_CLASSES = ('FileSearchException', 'UnicodeDecodeError')
@@ -136,6 +136,11 @@ def plans(chk):
         out.append(mkplan(rng, 'sync_inside_lock', 'raise_unpicklable', 4,
                           3))
         out.append(mkplan(rng, 'queue_put', 'raise_local', 3, 2))
+    # a single-file search failing inside an open section of a sequence
+    # definition that the next search in this process uses again (fixed
+    # history, nothing random)
+    out.append({'nfiles': 1, 'workers': 1, 'file': 0, 'point': 'line',
+                'kind': 'seq_midsection', 'k': 1, 't1': 12, 't2': 6})
     # undecodable input and injected UnicodeDecodeError
     out.append(mkplan(rng, 'line', 'raise_ude', 3, 2))
     out.append(mkplan(rng, 'sync_inside_lock', 'raise_ude', 3, 2))
@@ -310,7 +315,7 @@ def classify(chk, r):
             viol(f'run1-hang {tag}')
         return found
     elif o['run1'] == 'UnicodeDecodeError' and \
-            kind not in ('raise_ude', 'bad_utf8'):
+            kind not in ('raise_ude', 'bad_utf8', 'seq_midsection'):
         # UnicodeDecodeError is for undecodable INPUT under strict decoding
         viol(f'unicode-error-for-decodable-input {tag}')
     elif o['run1'] not in OK_CLASSES:
@@ -354,7 +359,7 @@ def coq_case(plan, o):
     kind = plan['kind']
     if kind == 'exit':
         k = 'KExit'
-    elif kind in ('raise_ude', 'bad_utf8'):
+    elif kind in ('raise_ude', 'bad_utf8', 'seq_midsection'):
         k = '(KRaise E_UDE)'
     elif kind in QUEUE_KINDS:
         k = f'(KRaise "{QUEUE_KINDS[kind]}"%string)'
